@@ -70,6 +70,12 @@ func configsFor(plugin, tier string) []sweepConfig {
 		}
 		if tier == "thorough" {
 			cs = append(cs, sweepConfig{name: "triple-tied", arities: []int{3}, shape: 3, tie: true, nargs: []int{1, 2}, maxRuns: budget})
+			// two fields with independent decisions: cross-field interactions (separators, mixed private/public, mixed kinds)
+			free := []int{2}
+			if plugin == "hash" || plugin == "gostring" {
+				free = []int{1}
+			}
+			cs = append(cs, sweepConfig{name: "pair-free", arities: []int{2}, shape: 2, nargs: free, maxRuns: 400000})
 		}
 		return cs
 	}
